@@ -77,28 +77,62 @@ def repo_tree_hash():
     return hash_files(paths)
 
 
+def model_files():
+    """the executable model (extracted to OCaml) and the glue around it; proofs are hashed separately"""
+    top = sorted(os.path.join(COQ, f) for f in os.listdir(COQ) if f.endswith(".v") and f != "Examples.v")
+    return top + files_under(os.path.join(VERIF, "ocaml"), (".ml", ".v", ".sh")) + \
+        files_under(os.path.join(VERIF, "rust"), (".rs", ".toml"))
+
+
 def model_hash():
-    return hash_files(files_under(COQ, (".v",)) + files_under(os.path.join(VERIF, "ocaml"), (".ml", ".v", ".sh")) +
-                      files_under(os.path.join(VERIF, "rust"), (".rs", ".toml")))
+    return hash_files(model_files())
+
+
+def proofs_hash():
+    return hash_files(files_under(COQ, (".v",)) + [os.path.join(COQ, "_CoqProject")])
+
+
+def coq_make():
+    rc, out, dt = run("coq_makefile -f _CoqProject -o Makefile > /dev/null && timeout 3000 make -k -j16", cwd=COQ, timeout=3100)
+    return rc, out
 
 
 def ensure_tools():
     """(re)build synx, the Coq development and the extracted model when missing or stale"""
     os.makedirs(CACHE, exist_ok=True)
     stamp = os.path.join(CACHE, "tools.stamp")
+    pstamp = os.path.join(CACHE, "proofs.stamp")
     want = model_hash()
+    pwant = proofs_hash()
     have = open(stamp).read().strip() if os.path.exists(stamp) else ""
-    if have == want and os.path.exists(SYNX) and os.path.exists(MODEL):
+    phave = open(pstamp).read().strip() if os.path.exists(pstamp) else ""
+    tools_ok = have == want and os.path.exists(SYNX) and os.path.exists(MODEL)
+    if tools_ok and phave == pwant:
         return
-    log("[tools] building synx")
-    run(["cargo", "build", "--release", "--offline"], cwd=os.path.join(VERIF, "rust", "synx"),
-        env={"CARGO_TARGET_DIR": os.path.join(CACHE, "target-synx")}, check=True, timeout=1200)
+    if not tools_ok:
+        log("[tools] building synx")
+        run(["cargo", "build", "--release", "--offline"], cwd=os.path.join(VERIF, "rust", "synx"),
+            env={"CARGO_TARGET_DIR": os.path.join(CACHE, "target-synx")}, check=True, timeout=1200)
     log("[tools] building Coq development")
-    run("coq_makefile -f _CoqProject -o Makefile > /dev/null && make -j16", cwd=COQ, check=True, timeout=3000)
-    log("[tools] extracting + building the OCaml model")
-    run(["sh", "build.sh"], cwd=os.path.join(VERIF, "ocaml"), check=True, timeout=1200)
-    with open(stamp, "w") as fh:
-        fh.write(want)
+    rc, out = coq_make()
+    with open(os.path.join(CACHE, "coq-make.log"), "w") as fh:
+        fh.write(out)
+    if rc != 0:
+        # a broken proof must not stop the model from running: build the model files alone, the audit reports the rest
+        log("[tools] make failed (see .cache/coq-make.log); building the model files only")
+        log(out[-1500:])
+        names = [os.path.basename(f)[:-2] + ".vo" for f in model_files() if f.startswith(COQ + os.sep)]
+        run("timeout 3000 make -j16 " + " ".join(names), cwd=COQ, check=True, timeout=3100)
+    if not tools_ok:
+        log("[tools] extracting + building the OCaml model")
+        run(["sh", "build.sh"], cwd=os.path.join(VERIF, "ocaml"), check=True, timeout=1200)
+        with open(stamp, "w") as fh:
+            fh.write(want)
+    if rc == 0:
+        with open(pstamp, "w") as fh:
+            fh.write(pwant)
+    elif os.path.exists(pstamp):
+        os.remove(pstamp)
 
 
 def write_json(path, obj):
